@@ -33,6 +33,11 @@ class is observed (detailed_validation), sets / frozensets (unstruct_collection_
 False->True, {}->{...} as well as {...}->{}, also to the value the source already has), systematically (one option at a
 time, then a second-generation copy) and at random; P1 compares ALL option attributes of the copy with those of a fresh
 converter constructed with the overridden options; no use of any converter of the store may write an option attribute.
+MUTATION of a public option container after the copy (`mutopt`: `conv.type_overrides[float] = override(rename=...)` on ONE
+converter, among the divergent operations): afterwards a class with a float field that NO converter has seen before is
+used for the first time on every bystander -- the other converters of the store, a default-constructed `Converter()`
+made before and one made after the mutation, `cattrs.global_converter` -- and each must answer like a reference converter
+constructed with its own options given as FRESH containers (oracle P2m; implementation only).
 F52 probe (implementation only): operating one converter on `G[int]` (generic attrs class) must not change what another
 instance does with `G[int]`.
 """
@@ -205,6 +210,13 @@ def identity_pattern(rows, key):
 
 
 
+def dc_describe(op):
+    if op["op"] == "mutopt":
+        return (f"c{op['conv']}.{op['opt']}[{op['key']}] = override(rename={op['val']!r})" if op["val"] is not None
+                else f"del c{op['conv']}.{op['opt']}[{op['key']}]")
+    return dc.describe(op)
+
+
 def kname(k):
     return f"{k[0]} {U.types[k[1]].name}" if k[0] != "ext" else f"option-sensitive probe {k[1]}"
 
@@ -310,6 +322,40 @@ def systematic_option_cases():
     return out
 
 
+# ---- mutation of public option containers (oracle only) ------------------------------------------------------
+def apply_mutopt(conv, op):
+    """`conv.type_overrides[float] = override(rename=<val>)` (or `del`): what a user does to reconfigure one converter"""
+    from cattrs.gen import override
+    table = getattr(conv, op["opt"])
+    key = dc._TYS[op["key"]]
+    if op["val"] is None:
+        table.pop(key, None)
+    else:
+        table[key] = override(rename=op["val"])
+
+
+def first_use_probe(conv, tuple_strat=False):
+    """un/structure a class with a float field that no converter has seen before -> canonical results"""
+    # (only float fields: `float` is outside the universe, so no registration of the history applies to it)
+    cl = attrs.make_class("ExtFresh", {"f": attrs.field(type=float), "n": attrs.field(type=float, default=1.0)})
+    out = []
+    for f in (lambda: conv.unstructure(cl(1.5, 2.0)), lambda: conv.structure({"f": 1.5}, cl), lambda: conv.structure({"M": 2.5, "F": 3.5, "G": 4.5}, cl)):
+        try:
+            r = f()
+            out.append(_ext_canon(attrs.asdict(r)) if attrs.has(type(r)) else _ext_canon(r))
+        except Exception as e:  # noqa: BLE001
+            out.append(("err", type(e).__name__))
+    return out
+
+
+def reference_converter(preds, cc, regs):
+    """a converter of configuration `cc` with the registrations `regs` that cannot share an option container with anything:
+    `type_overrides` is always passed explicitly (`decode_options` builds a new dict on every call)"""
+    if cc.gen():
+        cc = ConvCfg.from_json(dict(cc.to_json(), extra=dict(cc.extra, type_overrides=dict(cc.extra.get("type_overrides", {})))))
+    return fresh_replay(preds, cc, regs).convs[0]
+
+
 def battery(impl, idx, names=None):
     cc = impl.cfgs[idx]
     out = {}
@@ -348,6 +394,10 @@ def run_case(chk, drv, case, global_ref, stats, corr_fail, loc_fail=None):
     viol = []
 
     def do(op):
+        if op["op"] == "mutopt":   # not an operation of the dispatch model: options are dispatch-neutral there
+            apply_mutopt(impl.convs[op["conv"]], op)
+            impl.opts0[op["conv"]] = dc.options_snapshot(impl.convs[op["conv"]])  # (the harness's own write)
+            return None
         full.append(op)
         return impl.do(op)
 
@@ -401,6 +451,8 @@ def run_case(chk, drv, case, global_ref, stats, corr_fail, loc_fail=None):
     for i in range(n):
         for d in DIRS:
             full.extend(dc.probe_ops(i, d, impl.cfgs[i]))
+    muts = [op for op in post if op["op"] == "mutopt"]
+    early_default = dc.Converter() if muts else None   # a default-constructed bystander that exists before the mutation
     for op in post:
         do(op)
         if op["op"] in REG:
@@ -412,7 +464,7 @@ def run_case(chk, drv, case, global_ref, stats, corr_fail, loc_fail=None):
             for p in dc.probe_ops(i, d, impl.cfgs[i]):
                 probe_at[(i, d, p["ty"])] = len(full)
                 full.append(p)
-    wherep = f"[{cc0.name()} pre: {' ; '.join(dc.describe(o) for o in pre)} | {' ; '.join(dc.describe(c) for c in copies)} | post on c{target}: {' ; '.join(dc.describe(o) for o in post)}]"
+    wherep = f"[{cc0.name()} pre: {' ; '.join(dc.describe(o) for o in pre)} | {' ; '.join(dc.describe(c) for c in copies)} | post on c{target}: {' ; '.join(dc_describe(o) for o in post)}]"
     for i in range(n):
         if i == target:
             continue
@@ -421,9 +473,25 @@ def run_case(chk, drv, case, global_ref, stats, corr_fail, loc_fail=None):
                 viol.append((f"C18 oracle P2 (isolation): converter c{i} changed its answer for {kname(k)} from "
                              f"{snap[i][k]!r} to {after[i][k]!r} although only c{target} was operated on {wherep}", True))
                 break
-    fr = fresh_replay(preds, impl.cfgs[target], regs_of[target])
+    # P2m: after a mutation of a public option container of c<target>, first use of an unseen class on every bystander
+    if muts:
+        bystanders = [(f"c{i}", impl.convs[i], impl.cfgs[i], regs_of[i]) for i in range(n) if i != target and impl.cfgs[i].gen()]
+        bystanders += [("a default-constructed Converter() created before the mutation", early_default, ConvCfg("Converter"), []),
+                       ("a default-constructed Converter() created after the mutation", dc.Converter(), ConvCfg("Converter"), []),
+                       ("cattrs.global_converter", cattrs_global(), ConvCfg("Converter"), [])]
+        for who, conv, cc, regs in bystanders:
+            got, want = first_use_probe(conv), first_use_probe(reference_converter(preds, cc, [o for o in regs if o["op"] in REG]))
+            stats["mutopt_probes"] = stats.get("mutopt_probes", 0) + 1
+            if got != want:
+                viol.append((f"C18 oracle P2m (isolation): after `{' ; '.join(dc_describe(m) for m in muts)}`, {who} answers {got!r} on a class "
+                             f"it sees for the first time (f: float, n: float = 1.0; unstructure / structure {{'f': 1.5}} / structure "
+                             f"{{'M': 2.5, 'F': 3.5, 'G': 4.5}}); a converter constructed with the same options ({cc.opts()}) and registrations answers "
+                             f"{want!r} {wherep}", True))
+    fr = fresh_replay(preds, impl.cfgs[target], [o for o in regs_of[target]])
     fr_bat = battery(fr, 0)
     for k in fr_bat:
+        if muts and k[0] == "ext":
+            continue  # the target's option-sensitive hooks were generated before its table was mutated
         if fr_bat[k] != after[target][k]:
             viol.append((f"C18 oracle P3: c{target} gives {after[target][k]!r} for {kname(k)}, a fresh converter with all "
                          f"its registrations gives {fr_bat[k]!r} {wherep}", True))
@@ -572,7 +640,34 @@ def gen_case(rng, quick):
     for _ in range(rng.randint(1, 6)):
         d = rng.choice(DIRS)
         post.append(dc.gen_warm(rng, target, d, cfgs[target]) if rng.random() < 0.2 else dc.gen_reg(rng, target, d, preds, tagger, prev=post))
+    if cfgs[target].gen() and rng.random() < 0.3:
+        post.insert(rng.randrange(len(post) + 1), gen_mutopt(rng, target))
     return {"cfg": cc.to_json(), "preds": dc.preds_to_json(preds), "pre": pre, "copies": copies, "target": target, "post": post}
+
+
+def gen_mutopt(rng, conv):
+    return {"op": "mutopt", "conv": conv, "opt": "type_overrides", "key": "float", "val": rng.choice(["M", "M", "F", None])}
+
+
+def systematic_mutation_cases():
+    """the public option container of ONE converter is mutated after the copy: every way of copying (also copies with the
+    table overridden, and a copy of a copy) x every converter of the store as the one mutated x source tables {} / {...}"""
+    out = []
+    p1 = {1: ({U.k("NA"), U.k("P")}, set())}
+    hows = (("copy", {}), ("deepcopy", {}), ("copy", {"type_overrides": {"float": "G"}}), ("copy", {"detailed_validation": False}))
+    grid = [("Converter", tyo, how, kw, False, t) for tyo in TYO_CHOICES[:2] for how, kw in hows for t in (0, 1)]
+    grid += [("Converter", {}, "copy", {}, True, 2), ("Converter", {}, "deepcopy", {}, True, 0),
+             ("JsonConverter", {}, "copy", {}, False, 0), ("JsonConverter", {}, "copy", {}, False, 1)]
+    for klass, src_tyo, how, kwargs, of_copy, target in grid:
+        cc = apply_override(ConvCfg(klass=klass), {"type_overrides": src_tyo} if src_tyo else {})
+        copies = [copy_op(0, cc, kwargs, how)]
+        if of_copy:
+            copies.append(copy_op(1, ConvCfg.from_json(copies[0]["cfg"]), {}))
+        post = [{"op": "mutopt", "conv": target, "opt": "type_overrides", "key": "float", "val": "M"},
+                {"op": "hook", "conv": target, "dir": ST, "ty": U.k("D"), "form": "call", "tag": 3}]
+        out.append({"cfg": cc.to_json(), "preds": dc.preds_to_json(p1), "pre": [], "copies": copies,
+                    "target": target, "post": post, "systematic": f"{klass}: mutate type_overrides of c{target} after {how}({kwargs})"})
+    return out
 
 
 def run(chk: framework.Check):
@@ -630,6 +725,7 @@ def run(chk: framework.Check):
                             cases.append({"cfg": cc.to_json(), "preds": dc.preds_to_json(p1), "pre": [reg], "copies": [cop],
                                           "target": target, "post": post})
     cases += systematic_option_cases()
+    cases += systematic_mutation_cases()
     n_rand = 220 if quick else 3000
     for _ in range(n_rand):
         cases.append(gen_case(rng, quick))
@@ -640,7 +736,7 @@ def run(chk: framework.Check):
         chk.count(key, nontrivial=any(o["op"] in REG for o in case["pre"]),
                   sample={"cfg": cc.name(), "pre": [dc.describe(o) for o in case["pre"]][:10],
                           "copies": [dc.describe(o) for o in case["copies"]], "target": case["target"],
-                          "post": [dc.describe(o) for o in case["post"]]})
+                          "post": [dc_describe(o) for o in case["post"]]})
         chk.note("cfg:" + cc.name().split("/")[0], "copies:%d" % len(case["copies"]), "target:" + ("original" if case["target"] == 0 else "copy"))
         if "systematic" in case:
             chk.note("systematic-option-override")
@@ -655,6 +751,9 @@ def run(chk: framework.Check):
             cfgs_.append(ConvCfg.from_json(c["cfg"]))
         if cc.fb_un or cc.fb_st:
             chk.note("fallback-factory")
+        for op in case["post"]:
+            if op["op"] == "mutopt":
+                chk.note("post:mutate-" + op["opt"] + ":" + ("original" if case["target"] == 0 else "copy"))
         for op in case["pre"]:
             if op["op"] in REG:
                 chk.note("pre:" + op["op"] + (":ext" if op.get("extended") else "") + ":" + op["dir"])
@@ -679,6 +778,7 @@ def run(chk: framework.Check):
                          "registration before the copy; distinct by case text")
     chk.extra["probes_compared_with_model"] = stats["probes"]
     chk.extra["copies"] = stats["copies"]
+    chk.extra["first_use_probes_after_option_container_mutation"] = stats.get("mutopt_probes", 0)
     chk.extra["correspondence_disagreements"] = len(corr_fail)
     drv.close()
 
@@ -687,7 +787,7 @@ def replay(case):
     drv = lean.Driver()
     print("configuration:", ConvCfg.from_json(case["cfg"]).name())
     for k in ("pre", "copies", "post"):
-        print(f" {k}:", " ; ".join(dc.describe(o) for o in case[k]))
+        print(f" {k}:", " ; ".join(dc_describe(o) for o in case[k]))
     print(" divergent ops target: converter", case["target"])
     gimpl = Impl({})
     gimpl.adopt(cattrs_global(), ConvCfg("Converter"))
